@@ -7,6 +7,7 @@ bytes are added to the accounting only under a successful capacity check, for th
 entry, and a refused operation changes nothing.  The history-level map behaviour is NOT decided.
 """
 import ast
+import re
 
 from ..model import AnalysisError, src, callee_name, dotted, walk_local, calls_in, FUNC
 from ..flow import Sem, atoms_at
@@ -77,17 +78,17 @@ def check(ctx):
         ok = len(opens) == 1
         if ok:
             e = resolve_single_assign(opens[0].args[0], f.node) if isinstance(opens[0].args[0], ast.Name) else opens[0].args[0]
-            exprs[f.name] = src(e)
+            exprs[f.name] = _norm_params(src(e), f)
             m = opens[0].args[1].value if len(opens[0].args) > 1 and isinstance(opens[0].args[1], ast.Constant) else "r"
             ok = (mode in m) and "b" in m
         ctx.ob("C16-R2", f.fq, f"one binary open in mode '{mode}b'", ok, node=f.node, construct=f"{f.name} open mode")
     probe = [c for c in calls_in(getf.node) if dotted(c.func) in ("os.path.exists", "os.path.isfile")]
     if probe:
         e = resolve_single_assign(probe[0].args[0], getf.node) if isinstance(probe[0].args[0], ast.Name) else probe[0].args[0]
-        exprs["get_file"] = src(e)
+        exprs["get_file"] = _norm_params(src(e), getf)
     ctx.instance("C16-R2", getf.fq)
     vals = set(exprs.values())
-    ctx.ob("C16-R2", FCM, f"writer, loader and existence probe agree on the path expression ({sorted(vals)})", len(exprs) == 3 and len(vals) == 1 and vals == {"os.path.join(self.root_path, file_name)"},
+    ctx.ob("C16-R2", FCM, f"writer, loader and existence probe agree on the path expression ({sorted(vals)})", len(exprs) == 3 and len(vals) == 1 and all(re.fullmatch(r"os\.path\.join\(self\.\w+, \$1\)", v) for v in vals),
            construct="path expression agreement", msg=f"the value file is written at {exprs.get('_write_file')} but read at {exprs.get('_load_file')} / probed at {exprs.get('get_file')}")
     # facades map the key through the same function in both directions
     k2p = repo.fn("db/helpers:key_to_file_path")
@@ -208,6 +209,14 @@ def check_key_mapping(ctx, repo, rid):
 
 
 
+def _norm_params(text, f):
+    """replace the function's own parameter names by positional placeholders ($1 = first parameter after self)"""
+    ps = [p for p in f.params() if p != "self"]
+    for k, p in enumerate(ps, 1):
+        text = re.sub(rf"\b{re.escape(p)}\b", f"${k}", text)
+    return text
+
+
 class _Relabel:
     """forwards to a Ctx, renaming rule ids (the accounting rules are shared between C16 and C18)"""
 
@@ -271,6 +280,9 @@ SEEDS = [
     Seed("oversize-after-unload", "fault", FCM, "        claim = len(new_file_contents)\n        if claim > self.max_memory:\n            raise MemoryError(f\"requested file update larger than max_memory: {file_name} {claim} {self.max_memory}\")\n        with self.file_futures_lock:\n            info = self.file_futures.get(file_name)\n            if info is None or not info[0]:\n                self._unload_file(file_name)\n",
          "        with self.file_futures_lock:\n            info = self.file_futures.get(file_name)\n            if info is None or not info[0]:\n                self._unload_file(file_name)\n                claim = len(new_file_contents)\n                if claim > self.max_memory:\n                    raise MemoryError(f\"requested file update larger than max_memory: {file_name} {claim} {self.max_memory}\")\n", rule="C16-R5"),
     Seed("capacity-predicate-strict", "fault", FCM, "        return (self.current_memory_usage + claim) <= self.max_memory", "        return self.current_memory_usage <= self.max_memory", rule="C16-R5"),
+    Seed("refactor-rename-param", "refactor", FCM, "    def _load_file(self, file_name):", "    def _load_file(self, name):",
+         more=[("        with open(os.path.join(self.root_path, file_name), 'rb') as file:\n            contents, memory_usage = self.process_contents(file.read())\n        self.update_file_futures_and_memory(file_name, memory_usage=memory_usage)",
+                "        with open(os.path.join(self.root_path, name), 'rb') as file:\n            contents, memory_usage = self.process_contents(file.read())\n        self.update_file_futures_and_memory(name, memory_usage=memory_usage)")]),
     Seed("refactor-path-var", "refactor", FCM, "        with open(os.path.join(self.root_path, file_name), 'rb') as file:", "        path = os.path.join(self.root_path, file_name)\n        with open(path, 'rb') as file:"),
     Seed("refactor-kvs-get-temp", "refactor", KVS, "            return deserialize_obj(self.cache.get_file(key_to_file_path(x)))", "            raw = self.cache.get_file(key_to_file_path(x))\n            return deserialize_obj(raw)"),
 ]
